@@ -36,6 +36,18 @@ class BufferCompleteError(Exception):
     pass
 
 
+def _valid_request_headers(headers: List[Tuple[bytes, bytes]]) -> bool:
+    # h2 validates the header names and that the pseudo headers are
+    # present, but not that the method and path are ASCII.
+    for name, value in headers:
+        if name in {b":method", b":path"}:
+            try:
+                value.decode("ascii")
+            except UnicodeDecodeError:
+                return False
+    return True
+
+
 class StreamBuffer:
     def __init__(self, event_class: Type[IOEvent]) -> None:
         self.buffer = bytearray()
@@ -271,6 +283,11 @@ class H2Protocol:
                     self.connection.update_settings(
                         {h2.settings.SettingCodes.MAX_CONCURRENT_STREAMS: 0}
                     )
+                elif not _valid_request_headers(event.headers):
+                    # Affects only this stream, the rest carry on.
+                    self.connection.reset_stream(
+                        event.stream_id, error_code=h2.errors.ErrorCodes.PROTOCOL_ERROR
+                    )
                 else:
                     await self._create_stream(event.stream_id, event.headers)
                     await self.send(Updated(idle=False))
@@ -344,6 +361,7 @@ class H2Protocol:
         await self.has_data.set()
 
     async def _create_stream(self, stream_id: int, headers: List[Tuple[bytes, bytes]]) -> None:
+        raw_path = b""  # Absent for a CONNECT without a :protocol
         for name, value in headers:
             if name == b":method":
                 method = value.decode("ascii").upper()
